@@ -24,7 +24,9 @@ NumSp(t) == Cardinality(Leaves(t))
 \* cs = the arguments of the call under study: G the genes per species the mapping was built with, gm the gene ->
 \* species assignment it holds NOW, ops what was done with the same argument objects before (an earlier
 \* simulator call, a re-assignment in place), memo what a cache inside the mapping would still hold
-Case(m, n, st, sp, G) == [sim |-> m, N |-> n, start |-> st, sp |-> sp, G |-> G, gm |-> GMapOf(G), memo |-> <<>>, ops |-> <<>>]
+\* (gm) / a cache of node ages on the species tree would still imply as edge lengths (lmemo)
+Case(m, n, st, sp, G) == [sim |-> m, N |-> n, start |-> st, sp |-> sp, G |-> G, gm |-> GMapOf(G), memo |-> <<>>, lmemo |-> <<>>,
+                          ops |-> <<>>]
 Cases == {Case(m, n, "single", NoG, <<>>) : m \in Sims \cap {"bd", "fast", "upb", "king"}, n \in 1..MaxN}
          \cup {Case(m, n, "cherry", NoG, <<>>) : m \in Sims \cap {"bd", "fast"}, n \in 2..MaxN}
          \cup (IF "cc" \in Sims THEN UNION {{Case("cc", 0, "single", t, G) : G \in [1..NumSp(t) -> 1..MaxG]} : t \in SpTrees} ELSE {})
@@ -51,12 +53,21 @@ EarlierCall == /\ a.ph = "args" /\ cs.ops = <<>>
                /\ cs' = [cs EXCEPT !.ops = <<Op("call", <<>>)>>, !.memo = IF StaleArgs THEN cs.gm ELSE <<>>]
                /\ UNCHANGED <<a, b, hist>>
 \* the mapping is re-applied in place: every gene of species t now belongs to species p[t]
-Reassign(p) == /\ a.ph = "args" /\ Len(cs.ops) = 1 /\ Len(p) = NumSp(cs.sp)
+Reassign(p) == /\ a.ph = "args" /\ cs.ops = <<Op("call", <<>>)>> /\ Len(p) = NumSp(cs.sp)
                /\ cs' = [cs EXCEPT !.gm = [i \in 1..Len(cs.gm) |-> p[cs.gm[i]]], !.ops = Append(@, Op("remap", p))]
                /\ UNCHANGED <<a, b, hist>>
+\* the species tree argument is annotated (node ages, root distances, bipartitions are computed and cached on it) ...
+Annotate == /\ a.ph = "args" /\ cs.ops = <<>>
+            /\ cs' = [cs EXCEPT !.ops = <<Op("annotate", <<>>)>>, !.lmemo = IF StaleArgs THEN cs.sp.len ELSE <<>>]
+            /\ UNCHANGED <<a, b, hist>>
+\* ... and then its edge lengths are changed in place (scale_edges(f) / direct edits)
+Rescale(f) == /\ a.ph = "args" /\ cs.ops = <<Op("annotate", <<>>)>>
+              /\ cs' = [cs EXCEPT !.sp.len = [x \in 1..cs.sp.n |-> f * cs.sp.len[x]], !.ops = Append(@, Op("rescale", <<f>>))]
+              /\ UNCHANGED <<a, b, hist>>
 \* the call under study: run a on the argument objects with their history, run b on freshly built equal arguments
 Begin == /\ a.ph = "args" /\ cs.ops # <<>>
-         /\ a' = InitOf(IF StaleArgs /\ cs.memo # <<>> THEN [cs EXCEPT !.gm = cs.memo] ELSE cs)
+         /\ a' = InitOf(IF StaleArgs /\ cs.memo # <<>> THEN [cs EXCEPT !.gm = cs.memo]
+                        ELSE IF StaleArgs /\ cs.lmemo # <<>> THEN [cs EXCEPT !.sp.len = cs.lmemo] ELSE cs)
          /\ b' = InitOf(cs)
          /\ UNCHANGED <<cs, hist>>
 
@@ -95,11 +106,11 @@ Next == \/ \E dt \in 1..MaxDt : Wait(dt)
         \/ \E ij \in Pairs : Coalesce(ij[1], ij[2])
         \/ \E p \in AllPerms : AssignTaxa(p)
         \/ Stop \/ PruneExtinct \/ RestartAfterExtinction \/ LeaveEdge \/ Finish
-        \/ EarlierCall \/ (\E p \in SpPerms : Reassign(p)) \/ Begin
+        \/ EarlierCall \/ (\E p \in SpPerms : Reassign(p)) \/ Annotate \/ (\E f \in {2} : Rescale(f)) \/ Begin
 Spec == Init /\ [][Next]_vars
 
 \* ------------------------------------------------------------------ properties
-Fails == IF a.ph = "done" THEN SeqToSet(FinalFails(a, cs.gm)) ELSE {}     \* judged against the CURRENT arguments
+Fails == IF a.ph = "done" THEN SeqToSet(FinalFails(a, cs.gm, cs.sp)) ELSE {}     \* judged against the CURRENT arguments
 WellFormedFinal == "C18.WellFormed" \notin Fails
 ExactlyNExtantLeaves == "C18.ExactlyNExtantLeaves" \notin Fails
 DistinctTaxa == "C18.DistinctTaxa" \notin Fails
